@@ -1,9 +1,9 @@
 """C18 - simplification is total on well-formed queries."""
-from vlib import chrun
-from vlib.harness import base
+from vlib import chrun, report, tvrun
+from vlib.harness import base, tvbase
+from vlib.skel import sources
 
 PROP = "C18"
-replay = base.s_replay
 
 
 def s_jobs(tier):
@@ -16,10 +16,31 @@ def s_jobs(tier):
                             "int index is beyond the end of a tuple/list literal")]
 
 
+def t_units(tier):
+    from func_adl.ast.function_simplifier import FuncADLIndexError  # noqa: F401
+    N = 2 if tier == "quick" else 3
+    us, n = tvbase.source_units(sources.SELECTORS, ("x", "y"), "simplify", N, "selector-family", nchunks=16, rtypes={"i_k": "i"},
+                                allowed_exc=())
+    return us, n
+
+
 def run(tier):
-    r, so = base.run_s(PROP, tier, "other", s_jobs(tier),
-                       explanation="bounded symbolic execution (CrossHair/z3) of the real simplifier with symbolic selectors; semantic intactness is decided by the TV part",
-                       functions=["func_adl.ast.function_simplifier.simplify_chained_calls.visit_Subscript/_Tuple/_List/_Dict/_Dict_with_value/_Of_First, visit_Attribute, visit_Call, call_Select, call_Where"],
-                       bounds={"int_selector": [-5, 5], "str_selector_len": 2, "arity": [0, 3], "positions": 4, "containers": 5, "selector_kinds": 8},
-                       not_traced=["validity check of the result: compile()/ast.unparse on a copy whose symbolic leaves are replaced by stand-ins of the same type"])
+    r = report.Run(PROP, tier, "translation_validation")
+    r.assumptions += base.S_ASSUME
+    so = chrun.run_jobs(s_jobs(tier))
+    chrun.fold_into(r, so)
+    base.finish_s(r, so, rule=base.S_RULE,
+                  explanation="S part: bounded symbolic execution of the real simplifier with symbolic selectors (totality, validity of the result, dedicated index error only when allowed)")
+    r.coverage["bounds_s"] = {"int_selector": [-5, 5], "str_selector_len": 2, "arity": [0, 3], "positions": 4, "containers": 5, "selector_kinds": 8}
+    r.coverage["not_symbolically_executed"] = ["validity check of the result: compile()/ast.unparse on a copy whose symbolic leaves are replaced by stand-ins of the same type"]
+    us, n = t_units(tier)
+    res = tvrun.run_units(us)
+    tvrun.fold_into(r, res, "simplify_chained_calls on %d instances of literal projections with negative / slice / variable / absent-key selectors: where the input evaluates, the output evaluates to the same value" % n)
+    tvbase.finish_t(r, tier, ["func_adl.ast.function_simplifier.simplify_chained_calls.visit_Subscript*, visit_Attribute"], {"N_collection_length": 2 if tier == "quick" else 3})
     return r.finish()
+
+
+def replay(payload):
+    if payload.get("engine") == "T":
+        return tvrun.replay_payload(payload)
+    return base.s_replay(payload)
